@@ -13,7 +13,8 @@ from harness.sexp import dumps, loads_all
 PID = 'C02'
 PROPS_MODULE = ['SympdeModel.Props.C02', 'SympdeModel.Props.C02b', 'SympdeModel.Props.C02c', 'SympdeModel.Props.C02d']
 EXTRA_THEOREM_MODULES = ['SympdeModel.Lemmas.Calc']
-RULE = ('random well-typed generic programs (as for C01) plus interface-operator programs, built bottom-up with the real '
+RULE = ('random well-typed generic programs (as for C01) plus interface-operator programs and derivations of products '
+        'with a coordinate factor, built bottom-up with the real '
         'constructors; every constructor application (operator, already built argument trees) is one case; '
         'non-trivial = the constructor returned something else than the plain node around its arguments; distinct by '
         'serialised request')
@@ -90,8 +91,11 @@ def gen_programs(ctx, n, maxdepth):
         g = GenericGen(rng, env, maxdepth=maxdepth)
         g.C = rec
         try:
-            if rng.random() < 0.75:
+            k = rng.random()
+            if k < 0.70:
                 g.any()
+            elif k < 0.78:
+                coord_factor_program(rng, env, rec, g)
             else:
                 iface_program(rng, env, rec)
         except Exception:
@@ -99,13 +103,82 @@ def gen_programs(ctx, n, maxdepth):
         yield env, rec
 
 
+def coord_factor_program(rng, env, rec, g):
+    """a differential operator applied to a PRODUCT holding a coordinate-dependent, function-free factor (x, y**2,
+    sin(x), x*y, ...) next to fields, coefficients, or alone: such a factor is a plain sympy expression without any
+    field, but it is not a constant — its own derivative term must survive (seeded change C02-9 pulled every
+    field-free factor out of the Poisson bracket as a coefficient)"""
+    sg = ScalarGen(rng, env, maxdepth=1, allow_fn_of_function=0, var_exp=0)
+
+    def fieldfree():
+        q = rng.random()
+        if q < 0.5:
+            return rng.choice(env.coords)
+        if q < 0.8:
+            return sg.coordexpr(1)
+        return g.compound()
+
+    def prod():
+        q = rng.random()
+        fs = [fieldfree()]
+        if q < 0.2:
+            fs.append(fieldfree())                  # field-free factors only: x*y, x*sin(y)
+        else:
+            fs += [rng.choice(env.sf) for _ in range(rng.choice([1, 1, 2]))]
+            if rng.random() < 0.3:
+                fs.append(fieldfree())
+        if rng.random() < 0.4:
+            fs.append(sg.coef())
+        if rng.random() < 0.2:
+            fs.append(sg.coef())
+        return sympy.Mul(*fs)
+
+    def other():
+        q = rng.random()
+        if q < 0.45:
+            return rng.choice(env.sf)
+        if q < 0.6:
+            return rng.choice(env.sf) * rng.choice(env.sf)
+        if q < 0.7:
+            return rng.choice(env.coords)
+        if q < 0.85:
+            return prod()
+        return prod() + rng.choice(env.sf)
+
+    a = prod() if rng.random() < 0.8 else prod() + sg.coef() * rng.choice(env.sf)
+    if env.dim == 2 and rng.random() < 0.7:
+        b = other()
+        if rng.random() < 0.5:
+            a, b = b, a
+        rec.bracket(a, b)
+        return
+    op = rng.choice(['grad', 'laplace', 'grad', 'div', 'convect'] + (['rot'] if env.dim == 2 else []))
+    if op == 'div':
+        rec.div(a * rng.choice(env.vf))
+    elif op == 'convect':
+        rec.convect(rng.choice(env.vf), a * rng.choice(env.vf))
+    else:
+        getattr(rec, op)(a)
+
+
 def iface_program(rng, env, rec):
     """interface operators on sums / products of scalar functions with coefficients"""
     sg = ScalarGen(rng, env, maxdepth=2, allow_fn_of_function=0, var_exp=0)
 
+    def cprod():
+        # a product made ONLY of coefficient factors (numbers, Constants): its restriction to a side is itself, its
+        # jump / normal derivative vanish (seeded change C02-10 returned 0 for minus / plus as well).  pi (a
+        # NumberSymbol, also in _coeffs_registery) only occurs in the fixed corpus of the oracle: the serialiser hands
+        # it to the Lean model as an opaque atom, not as a coefficient
+        fs = [sg.coef() for _ in range(rng.choice([2, 2, 3]))]
+        r = sympy.Mul(*fs)
+        return r if isinstance(r, sympy.Mul) else 2 * rng.choice(env.cst)
+
     def arg(depth=0):
         k = rng.random()
         if depth >= 2 or k < 0.3:
+            if depth > 0 and rng.random() < 0.12:
+                return cprod() if rng.random() < 0.7 else rng.choice(env.coords) * sg.coef()
             return rng.choice(env.sf)
         if k < 0.5:
             return arg(depth + 1) + arg(depth + 1)
@@ -119,7 +192,14 @@ def iface_program(rng, env, rec):
             return sympy.Mul(*fs)
         return sg.coef() * arg(depth + 1)
     op = rng.choice(['jump', 'avg', 'minus', 'plus', 'Dn'])
-    e = getattr(rec, op)(arg())
+    q = rng.random()
+    if q < 0.06:
+        a = cprod()                                  # the whole argument is a product of coefficients
+    elif q < 0.16:
+        a = arg(1) + cprod()                         # ... or has one as a summand
+    else:
+        a = arg()
+    e = getattr(rec, op)(a)
     if rng.random() < 0.4:
         getattr(rec, rng.choice(['jump', 'avg', 'minus', 'plus']))(e * rng.choice(env.sf))
 
@@ -202,7 +282,53 @@ def fixed_corpus():
     c = Constant('c')
     from sympde.topology import ScalarFunctionSpace, element_of
     gl = element_of(ScalarFunctionSpace('VLk2', e2.domain, kind='l2'), name='glk2')
+    x, y = e2.coords
+    k = Constant('k')
+    pi = sympy.pi
     return [
+        # a coordinate-dependent, field-free factor inside a product under the Poisson bracket: not a coefficient, its
+        # own bracket term must survive (seeded change C02-9 pulled every field-free factor out)
+        (e2, 'bracket', (x * f, g), 'corpus:bracket(x*f,g)'),
+        (e2, 'bracket', (f, y ** 2 * g), 'corpus:bracket(f,y**2*g)'),
+        (e2, 'bracket', (x * y, g), 'corpus:bracket(x*y,g)'),
+        (e2, 'bracket', (g, x * y), 'corpus:bracket(g,x*y)'),
+        (e2, 'bracket', (3 * c * x * y * f, g * h), 'corpus:bracket(3*c*x*y*f,g*h)'),
+        (e2, 'bracket', (sympy.sin(x) * f, y * g), 'corpus:bracket(sin(x)*f,y*g)'),
+        (e2, 'bracket', (x * f + 2 * g, h), 'corpus:bracket(x*f+2*g,h)'),
+        (e2, 'bracket', (x * f, y), 'corpus:bracket(x*f,y)'),
+        (e2, 'bracket', ((x + c) * f, g), 'corpus:bracket((x+c)*f,g)'),
+        (e2, 'bracket', (2 * x, g), 'corpus:bracket(2*x,g)'),
+        (e2, 'bracket', (x, g), 'corpus:bracket(x,g)'),
+        (e2, 'bracket', (c * f, k * g), 'corpus:bracket(c*f,k*g)'),
+        # the same shape under the other derivations
+        (e2, 'grad', (x * f,), 'corpus:grad(x*f)'),
+        (e2, 'grad', (2 * x * y,), 'corpus:grad(2*x*y)'),
+        (e2, 'laplace', (x * f,), 'corpus:laplace(x*f)'),
+        (e2, 'laplace', (c * x * y * f,), 'corpus:laplace(c*x*y*f)'),
+        (e2, 'div', (x * F,), 'corpus:div(x*F)'),
+        (e2, 'div', (2 * x * y * f * F,), 'corpus:div(2*x*y*f*F)'),
+        (e2, 'rot', (y * f,), 'corpus:rot(y*f)'),
+        (e2, 'convect', (F, x * G), 'corpus:convect(F,x*G)'),
+        (e2, 'Dn', (x * f,), 'corpus:Dn(x*f)'),
+        (e2, 'jump', (x * f,), 'corpus:jump(x*f)'),
+        # a product made of coefficient factors only (numbers, pi, Constants), alone or as a summand, under the
+        # interface operators: restrictions and the average keep it, jump and Dn annihilate it (seeded change C02-10
+        # returned 0 for minus / plus too)
+        (e2, 'minus', (2 * c,), 'corpus:minus(2*c)'),
+        (e2, 'plus', (2 * c,), 'corpus:plus(2*c)'),
+        (e2, 'minus', (c * k,), 'corpus:minus(c*k)'),
+        (e2, 'plus', (c * k * pi / 2,), 'corpus:plus(c*k*pi/2)'),
+        (e2, 'minus', (f + 2 * c,), 'corpus:minus(f+2*c)'),
+        (e2, 'plus', (f * g - c * k + 3 * g,), 'corpus:plus(f*g-c*k+3*g)'),
+        (e2, 'minus', (c * f + 3 * pi * k,), 'corpus:minus(c*f+3*pi*k)'),
+        (e2, 'avg', (2 * c,), 'corpus:avg(2*c)'),
+        (e2, 'avg', (f + c * k,), 'corpus:avg(f+c*k)'),
+        (e2, 'jump', (f + 2 * c,), 'corpus:jump(f+2*c)'),
+        (e2, 'Dn', (f + 2 * c,), 'corpus:Dn(f+2*c)'),
+        (e2, 'minus', (c,), 'corpus:minus(c)'),
+        (e2, 'plus', (f + c,), 'corpus:plus(f+c)'),
+        (e2, 'minus', (2 * x,), 'corpus:minus(2*x)'),
+        (e2, 'plus', (c * x * f + 2 * k,), 'corpus:plus(c*x*f+2*k)'),
         (e2, 'div', (2 * gl * F,), 'corpus:div(2*g*F) g in L2'),
         # the SAME scalar factor in both arguments of a bilinear operator (seeded change C02-5 counted it once)
         (e2, 'inner', (2 * F, 2 * G), 'corpus:inner(2*F,2*G)'),
